@@ -87,6 +87,12 @@ func dispatch(kind string, args []*Sexp) (out *Sexp) {
 	case "jsonstr", "jsonmarshal", "jsondoc":
 		return runJSON(kind, args)
 	}
+	switch kind {
+	case "inv19", "pool19", "calls19":
+		return runC19(kind, args)
+	case "size19":
+		return runSize19(args)
+	}
 	return L(A("unknown-kind"), A(kind))
 }
 
@@ -94,7 +100,12 @@ var flushEach = os.Getenv("UGOH_FLUSH") != ""
 
 func main() {
 	in := bufio.NewReaderSize(os.Stdin, 1<<20)
-	out := bufio.NewWriterSize(os.Stdout, 1<<20)
+	// results go to the original stdout; anything the implementation prints through Go's fmt goes nowhere
+	real := os.Stdout
+	if null, err := os.OpenFile(os.DevNull, os.O_WRONLY, 0); err == nil {
+		os.Stdout = null
+	}
+	out := bufio.NewWriterSize(real, 1<<20)
 	defer out.Flush()
 	for {
 		line, err := in.ReadString('\n')
